@@ -150,9 +150,9 @@ def run(ctx):
         ctx.sample({"call": f"einx.{j['op']}({j['desc']!r})", "shapes": j["shapes"], "hash_seeds": seeds})
     ctx.coverage = {
         "states": cstats.get("orders_explored", 0) + len(items) * len(seeds), "transitions": cstats.get("choice_points", 0) + len(items) * len(seeds) * 2 + nrep * 5,
-        "traces_validated_against_impl": cstats.get("orders_explored", 0) + len(items) * len(seeds),
+        "traces_validated_against_impl": len(items) * len(seeds) + nrep,
         "exhaustive": True, "calls": len(items), "hash_seeds": seeds, "repeat_checked": nrep, "calls_differing_across_seeds": ndiff,
-        "rule": "states = (call, hash seed) process-level executions + explored (call, order choice) executions; every call of the corpus runs in one interpreter per hash seed (own uuid draws) on "
+        "rule": "states = (call, hash seed) process-level executions + explored (call, order choice) executions; traces_validated_against_impl = executions in separate real interpreter processes (per hash seed, and the cache-disabled repeats); every call of the corpus runs in one interpreter per hash seed (own uuid draws) on "
                 "backends numpy and numpy.numpylike, digests compared; repeat: graph=True twice and 3 executions with EINX_CACHE_SIZE=0; choice exploration: see counters",
     }
     ctx.assumptions = ["tensor contents are fixed (seed 0) so that digests are comparable across processes", "a candidate from the choice exploration is reported only after a real PYTHONHASHSEED pair reproduces it"]
